@@ -148,6 +148,13 @@ func gen(t *rapid.T) Case {
 		c.Path = append(c.Path, i)
 		cur = &cur.Dir.Entries[i]
 	}
+	// most requests that end on a file should end on one with several blocks (ranges, scopes and dups only
+	// differ there): a single-block terminal file is regrown in place two times out of three
+	if cur.File != nil && cur.File.NumChunks() <= 1 && rapid.IntRange(0, 2).Draw(t, "regrow") != 0 {
+		cur.File.Chunk = rapid.IntRange(3, 64).Draw(t, "regrow_chunk")
+		k := rapid.IntRange(1, 20).Draw(t, "regrow_k")
+		cur.File.Size = k*cur.File.Chunk + rapid.IntRange(1, cur.File.Chunk).Draw(t, "regrow_tail")
+	}
 	c.Format = rapid.SampledFrom([]string{"car", "car", "car", "car", "raw"}).Draw(t, "format")
 	c.ViaAccept = rapid.Bool().Draw(t, "via_accept")
 	c.Deser = rapid.Bool().Draw(t, "deser")
@@ -205,6 +212,46 @@ func gen(t *rapid.T) Case {
 				c.To = abs(c.From) + int64(rapid.IntRange(0, int(3*chunk)).Draw(t, "len"))
 			default:
 				c.To = abs(off("to"))
+			}
+			// boundary shapes: both ends taken from the edges of the file and of its chunks, counted from the
+			// start or from the end (suffix shorter than, equal to and longer than the file), open or bounded.
+			// The traversal derives the range from the file length and a seekable reader; its corner cases sit
+			// exactly where a suffix meets or exceeds the length and where an end is left open.
+			if cur.File != nil && rapid.IntRange(0, 9).Draw(t, "eb_boundary") < 5 {
+				pick := func(label string, vs ...int64) int64 {
+					v := rapid.SampledFrom(vs).Draw(t, label)
+					if v < 0 {
+						v = 0
+					}
+					return v
+				}
+				c.To, c.ToStar = 0, false
+				switch rapid.SampledFrom([]string{"start", "suffix<size", "suffix=size", "suffix>size"}).Draw(t, "from_shape") {
+				case "start":
+					c.From = pick("from_edge", 0, 1, chunk-1, chunk, chunk+1, size-chunk, size-2, size-1, size, size+1, size+chunk, 1<<40)
+				case "suffix<size":
+					c.From = -pick("from_edge", 1, chunk-1, chunk, chunk+1, size-chunk, size-2, size-1)
+				case "suffix=size":
+					c.From = -size
+				default:
+					c.From = -pick("from_edge", size+1, size+chunk, 2*size+7, 1<<40)
+				}
+				// the suffix form is normally written with an open end ("-N:*")
+				open := 2 // of 6
+				if c.From < 0 {
+					open = 3
+				}
+				if rapid.IntRange(0, 5).Draw(t, "to_edge_open") < open {
+					c.ToStar = true
+				} else {
+					c.To = pick("to_edge", 0, 1, chunk-1, chunk, chunk+1, size-chunk, size-2, size-1, size, size+1, size+chunk, 2*size+7, 1<<40)
+					if rapid.IntRange(0, 2).Draw(t, "to_edge_neg") == 0 {
+						c.To = -c.To
+					}
+				}
+				if cur.File.NumChunks() > 1 && c.Scope != "entity" && rapid.IntRange(0, 3).Draw(t, "edge_entity") != 0 {
+					c.Scope = "entity" // entity-bytes only acts within dag-scope=entity
+				}
 			}
 			// keep inside the documented grammar: same-sign pairs need from <= to
 			if !c.ToStar && ((c.From >= 0 && c.To >= 0) || (c.From < 0 && c.To < 0)) && c.From > c.To {
@@ -518,6 +565,9 @@ func run(c Case) kit.Result {
 	}
 	if term.spec.File != nil {
 		classes = append(classes, "term:file")
+		if term.spec.File.NumChunks() > 1 {
+			classes = append(classes, "term:file,multiblock")
+		}
 	} else if term.spec.Dir.HAMT {
 		classes = append(classes, "term:hamt")
 	} else {
@@ -645,6 +695,18 @@ func run(c Case) kit.Result {
 			from, to := int64(0), size-1
 			if c.HasEB {
 				classes = append(classes, "eb")
+				if c.ToStar {
+					classes = append(classes, "eb:open")
+				}
+				if c.From < 0 {
+					classes = append(classes, "eb:suffix")
+					if -c.From >= size && size > 0 {
+						classes = append(classes, "eb:suffix>=size")
+						if c.ToStar && term.spec.File.NumChunks() > 1 {
+							classes = append(classes, "eb:suffix>=size,open,multiblock")
+						}
+					}
+				}
 				from = c.From
 				if from < 0 {
 					from = size + from
@@ -668,6 +730,10 @@ func run(c Case) kit.Result {
 				if from == 0 && to == size-1 {
 					if m := readWhole(ctx, off, term, "dag-scope=entity"); m != "" {
 						return fail("%s", m)
+					}
+					if c.HasEB && term.spec.File.NumChunks() > 1 {
+						classes = append(classes, "eb:whole")
+						nt = true
 					}
 				} else {
 					classes = append(classes, "eb:subrange")
@@ -762,7 +828,7 @@ func readWhole(ctx context.Context, off *kit.GwStore, term *built, what string) 
 
 var spec = kit.Spec[Case]{
 	Prop: "C31", Name: "main",
-	Rule:  "UnixFS tree (<=24 entities, depth<=3; basic and HAMT(fanout 8) directories; files 0..1500 B via the real importers with small chunks/widths, some with identical chunks) served by gateway.NewHandler over NewBlocksBackend in-process; GET of a generated existing path with format=raw or format=car (query or Accept) x dag-scope {default,block,entity,all} x entity-bytes grammar (from/to positive, negative, *, beyond end) x dups {-,y,n} x order; CAR parsed with go-car into an offline store and re-read with the real resolver/readers; non-trivial = the path crosses a HAMT directory, the terminal is a HAMT directory listed offline, or entity-bytes selects a strict sub-range of a multi-block file",
+	Rule:  "UnixFS tree (<=24 entities, depth<=3; basic and HAMT(fanout 8) directories; files 0..1500 B via the real importers with small chunks/widths, some with identical chunks) served by gateway.NewHandler over NewBlocksBackend in-process; GET of a generated existing path with format=raw or format=car (query or Accept) x dag-scope {default,block,entity,all} x entity-bytes grammar (from/to positive, negative, *, beyond end; half of the file requests draw a shape first - from counted from the start, or a suffix shorter than / equal to / longer than the file - and take both ends from the edges 0, 1, chunk±1, size-chunk, size-2..size+1, size+chunk, 2*size+7, 2^40, the end open, positive or negative; a single-block terminal file is regrown to 2..21 chunks two times out of three) x dups {-,y,n} x order; CAR parsed with go-car into an offline store and re-read with the real resolver/readers; non-trivial = the path crosses a HAMT directory, the terminal is a HAMT directory listed offline, or entity-bytes selects a strict sub-range, or by an explicit range the whole, of a multi-block file",
 	Quick: 600, Thorough: 5000,
 	Gen: gen, Run: run,
 }
